@@ -1256,3 +1256,32 @@ CHECKS["C06"]["note"] = (
     'observation events and imports are not in the alphabet. State kept outside the trees is not reset between '
     'replayed histories of a worker.'
 )
+
+CHECKS["C06"]["text"] = (
+    'Two libraries: flat (top-level classes: component types, extends, modifications) and pkg (packages: a '
+    'package-qualified component type and extends, a qualified and an unqualified import in an enclosing package, a '
+    'class nested two levels deep that finds its component type in an enclosing package; every observed / edited '
+    'class is nested). Per library all histories within the bound -- quick: flat length 3, <= 2 deviations (edit or '
+    'observation events), <= 2 edits; pkg length 3, <= 2 deviations, <= 1 edit; thorough: flat length 4 / 3 '
+    'deviations / 2 edits; pkg length 4 / 3 deviations / 1 edit and length 3 / 2 / 2; <= 2 observations -- over '
+    'deepcopy of any tree, add/remove symbol/equation, remove class, replace class by a different class of the same '
+    'name (remove_class + add_class), add class, on a component-type class, a base class and a top model (quick '
+    'flat: the first two), and observation of every class of a live tree through tree.flatten in place with ONE '
+    'ComponentRef object per class name kept for the whole history / the SymPy backend / the XML backend (quick '
+    'pkg: in place only) -- checked, and kept in the history, so later copies and edits act on observed trees -- on '
+    'up to 3 trees (copies of copies included). After every copy or edit every tree is observed on a replay of its '
+    'own -- flatten of a deep copy, every route an earlier observation used, thorough: in place always -- and must '
+    "equal a fresh parse carrying exactly that tree's own edits observed through the same route. 2510 transitions "
+    'quick (2001 flat + 509 pkg), 70925 thorough.'
+)
+
+CHECKS["C06"]["note"] = (
+    'Two small libraries; edits through the public AST API only; the expected result uses the same AST API and the '
+    'same route on a never-copied fresh parse (computed before the exploration), so defects of add_/remove_ or of a '
+    "backend's rendering themselves are not seen. Quick has no two-edit histories on the package library, no edits "
+    "of the flat library's top model and no backend observation events on the package library (thorough has). "
+    'Observation events observe all classes of a tree in a fixed order (final observations in the reverse order); '
+    'single-class observation events, removal / replacement of a whole package, Tree.extend and encapsulated '
+    'classes are not in the alphabet. State kept outside the trees is not reset between replayed histories of a '
+    'worker.'
+)
